@@ -6,7 +6,7 @@ EXPLANATION = ("Bounded symbolic checking (engine S, REAL mode) of MatrixTools.h
                "extremum search / symmetry / assignment optimality are sign questions decided by z3 on every path; an out-of-range element access aborts the path (libstdc++ assertions) and is reported.")
 FUNCTIONS = ["MatrixTools::{mult (5 overloads), add (2), scale, fill, copy, getId, diag (3), transpose, isSymmetric, pow(size_t), Taylor, kroneckerMult (3), hadamardMult (3), directSum (2), covar, "
              "max, min, whichMax, whichMin, sumElements, toVVdouble, lap}", "RowMatrix/ColMatrix/LinearMatrix::{operator(), resize, getNumberOfRows, getNumberOfColumns}"]
-BOUNDS = ("every dimension of every operand in 1..3 (quick) / 1..4 (thorough: products, sums, Hadamard, transpose, covariance, extremum) plus the all-0x0 case; every storage class for each operand and the result "
+BOUNDS = ("every dimension of every operand in 1..3 (quick) / 1..4 (thorough: products, sums, Hadamard, transpose; covariance and extremum searches stay at 1..3: at 1..4 the job produces about a million paths and was not run to completion) plus the all-0x0 case; every storage class for each operand and the result "
           "(the 4-6 operand complex routines use the three cyclic assignments); integer power p<=5 (n<=2) / p<=4 (n=3); assignment solver n<=3 (both tiers; n=4 measured: no path finishes in 700 s) with all n! permutations as oracle; all real entries")
 OUTSIDE = ["shapes above 3 (4) per dimension", "shapes with exactly one zero dimension (not representable: an r x 0 ColMatrix reports 0 rows)", "rounding (REAL mode proves the exact sums)",
            "pow(A,double) and exp (eigen-decomposition based, see C06)", "copyUp/copyDown/fillDiag/print (not named by the property)"]
@@ -23,6 +23,6 @@ JOBS = [
     Job("sums-scaling", "C04.cpp", ["HLO=5", "HHI=7"] + Q, thorough_defines=["HLO=5", "HHI=7"] + T, budget_s=300, thorough_budget_s=3000, desc="sum, scaled sum, scale, fill, copy, identity, diag, transpose, symmetry"),
     Job("powers", "C04.cpp", ["HLO=8", "HHI=8"] + Q, thorough_defines=["HLO=8", "HHI=8", "DMAX=3", "PMAX=6"], budget_s=300, thorough_budget_s=3000, desc="integer power (three concrete classes) and power series"),
     Job("kronecker-hadamard-directsum", "C04.cpp", ["HLO=9", "HHI=11", "DMAX=2"], thorough_defines=["HLO=9", "HHI=11", "DMAX=3"], budget_s=400, thorough_budget_s=3000, desc="Kronecker (3 forms, presized or not), Hadamard (3 forms), direct sums (2 and 3 blocks)"),
-    Job("covariance-extrema", "C04.cpp", ["HLO=12", "HHI=13"] + Q, thorough_defines=["HLO=12", "HHI=13"] + T, budget_s=300, thorough_budget_s=3000, desc="covariance, max/min/whichMax/whichMin, element sum"),
+    Job("covariance-extrema", "C04.cpp", ["HLO=12", "HHI=13"] + Q, budget_s=300, thorough_budget_s=1500, desc="covariance, max/min/whichMax/whichMin, element sum"),
     Job("assignment", "C04.cpp", ["HLO=14", "HHI=14"] + Q, budget_s=400, thorough_budget_s=1200, desc="linear assignment: optimal permutation and certifying duals"),
 ]
